@@ -10,6 +10,7 @@ import (
 	"io"
 	"reflect"
 	"sort"
+	"strings"
 
 	"github.com/foxboron/go-uefi/internal/vsym"
 )
@@ -158,6 +159,30 @@ func VST_Semantics() {
 func VST_Symbolic() {
 	x := vsym.U32("x")
 	y := vsym.U8("y")
+	// library summaries against definitions written out here: ToLower, TrimLeft, Index, EqualFold
+	t := vsym.BytesN("text", 3)
+	low := make([]byte, 3)
+	for i, c := range t {
+		low[i] = vsym.IteU8(vsym.And(c >= 'A', c <= 'Z'), c+32, c)
+	}
+	if vsym.And(t[0] < 0x80, t[1] < 0x80, t[2] < 0x80) {
+		vsym.AssertBytesEq([]byte(strings.ToLower(string(t))), low, "ToLower of ASCII text")
+		tr := strings.TrimLeft(string(t), "0x")
+		k := 0
+		for k < 3 && (t[k] == '0' || t[k] == 'x') {
+			k++
+		}
+		vsym.AssertBytesEq([]byte(tr), t[k:], "TrimLeft strips the leading characters of the set")
+		vsym.Assert(strings.EqualFold(string(t), string(low)), "EqualFold of a text and its lower-case form")
+	}
+	idx := bytes.Index(t, []byte{'a', 'b'})
+	want := -1
+	if vsym.And(t[0] == 'a', t[1] == 'b') {
+		want = 0
+	} else if vsym.And(t[1] == 'a', t[2] == 'b') {
+		want = 1
+	}
+	vsym.Assert(idx == want, "Index is the first occurrence")
 	vsym.Assert(x+1 > x || x == 0xffffffff, "unsigned overflow only at the maximum")
 	vsym.Assert(uint32(uint8(x)) == x&0xff, "truncation is masking")
 	vsym.Assert(int8(y) < 0 == (y >= 128), "sign of a reinterpreted byte")
